@@ -1,3 +1,4 @@
+import Sparrow.Proofs.KangRefine
 import Sparrow.Proofs.KangFFEquiv
 import Sparrow.Proofs.KangRecvEquiv
 import Sparrow.Proofs.KangFnEquiv
@@ -370,3 +371,30 @@ theorem writerColumn_injective (lens : List Nat) (j j' i i' : Nat) (hj : j < len
   Sparrow.writerColumn_injective lens j j' i i' hj hj' hi hi' h
 
 end Sparrow.Props.C19.KangFF
+
+namespace Sparrow.Props.C19.Refine
+open Sparrow Sparrow.Generated.KangFn Finset
+
+/-- **refinement**: the regenerated loop nest, started from a zero cell, computes the model's next order -/
+theorem exchangeCell_refines_order (g : KangGeom) (f k j t : Nat) (others : List Nat)
+    (hj : j < g.P) (ht : t < g.S) (hnd : others.Nodup)
+    (hmem : ∀ w, w ∈ others ↔ w < g.W ∧ w ≠ g.wall j) (hwall : ∀ i, i < g.P → g.wall i < g.W)
+    (hbins : ∀ i, i < g.P → g.wall i ≠ g.wall j → binKang (g.dist i j) g.c g.fs ≤ g.S) :
+    exchangeCell 0 (g.center j) g.c g.fs g.S (g.wallsOf f k j others) (g.absorption (g.wall j)) (g.scattering (g.wall j))
+        (g.att (g.wall j)) f t =
+      some (orderH (g.scene f).toEx (k + 1) j 0 t) :=
+  Sparrow.exchangeCell_refines_order g f k j t others hj ht hnd hmem hwall hbins
+
+/-- the result does not depend on the order in which the other walls are listed -/
+theorem exchangeCell_order_of_walls (g : KangGeom) (f k j t : Nat) (others others' : List Nat)
+    (hj : j < g.P) (ht : t < g.S) (hnd : others.Nodup) (hnd' : others'.Nodup)
+    (hmem : ∀ w, w ∈ others ↔ w < g.W ∧ w ≠ g.wall j) (hmem' : ∀ w, w ∈ others' ↔ w < g.W ∧ w ≠ g.wall j)
+    (hwall : ∀ i, i < g.P → g.wall i < g.W)
+    (hbins : ∀ i, i < g.P → g.wall i ≠ g.wall j → binKang (g.dist i j) g.c g.fs ≤ g.S) :
+    exchangeCell 0 (g.center j) g.c g.fs g.S (g.wallsOf f k j others) (g.absorption (g.wall j)) (g.scattering (g.wall j))
+        (g.att (g.wall j)) f t =
+      exchangeCell 0 (g.center j) g.c g.fs g.S (g.wallsOf f k j others') (g.absorption (g.wall j)) (g.scattering (g.wall j))
+        (g.att (g.wall j)) f t :=
+  Sparrow.exchangeCell_order_of_walls g f k j t others others' hj ht hnd hnd' hmem hmem' hwall hbins
+
+end Sparrow.Props.C19.Refine
